@@ -7,6 +7,7 @@ CONSTANTS
   WCounts = {0, 1, 4096, 5000}
   SOffs <- MC_BigSOffs
   VBufs = {"full"}
+  MFmts <- MC_None
   VSizes = {0}
   Extra <- MC_AllExtra
   Naive = FALSE
